@@ -58,6 +58,15 @@ Definition split_days (d : Z) : Z * Z :=
 
 (* ---------- the civil calendar of package time (proleptic Gregorian), any year ---------- *)
 
+(* the part of the computation inside one 400-year era (March-based years):
+   day of the era of (year of era, March-based month, day) and back *)
+Definition doe_of (yoe mp d : Z) : Z := yoe * 365 + yoe / 4 - yoe / 100 + (153 * mp + 2) / 5 + (d - 1).
+Definition civil_doe (doe : Z) : Z * Z * Z :=
+  let yoe := (doe - doe / 1460 + doe / 36524 - doe / 146096) / 365 in
+  let doy := doe - (365 * yoe + yoe / 4 - yoe / 100) in
+  let mp := (5 * doy + 2) / 153 in
+  (yoe, mp, doy - (153 * mp + 2) / 5 + 1).
+
 (* days since 1970-01-01 of year/month/day; month and day are normalised as time.Date does:
    months outside 1..12 carry into the year, the day is an offset from the first of the month *)
 Definition days_of_civil (y m d : Z) : Z :=
@@ -67,19 +76,14 @@ Definition days_of_civil (y m d : Z) : Z :=
   let era := y2 / 400 in
   let yoe := y2 - era * 400 in
   let mp := (m1 + 9) mod 12 in
-  let doy := (153 * mp + 2) / 5 in
-  let doe := yoe * 365 + yoe / 4 - yoe / 100 + doy in
-  era * 146097 + doe - 719468 + (d - 1).
+  era * 146097 + doe_of yoe mp d - 719468.
 
 (* year/month/day of a day number (days since 1970-01-01) *)
 Definition civil_of_days (z0 : Z) : Z * Z * Z :=
   let z := z0 + 719468 in
   let era := z / 146097 in
   let doe := z - era * 146097 in
-  let yoe := (doe - doe / 1460 + doe / 36524 - doe / 146096) / 365 in
-  let doy := doe - (365 * yoe + yoe / 4 - yoe / 100) in
-  let mp := (5 * doy + 2) / 153 in
-  let d := doy - (153 * mp + 2) / 5 + 1 in
+  let '(yoe, mp, d) := civil_doe doe in
   let m := if mp <? 10 then mp + 3 else mp - 9 in
   let y := yoe + era * 400 in
   (if m <=? 2 then y + 1 else y, m, d).
